@@ -32,6 +32,7 @@ var c11Files = map[string]string{
 	"nt.fa":    ">s1\nATGGCTAAGTGA\n>s2\nATGGCTAAG-GA\n>s3\nATGACTAAGTNA\n>s4\nATGACCAAGTGA\n",
 	"nt2.fa":   ">s1\nACGT\n>s2\nAC-T\n>s5\nTTTT\n",
 	"tie.fa":   ">a\nACGT-N\n>b\nCAGT-N\n>c\nACTG-A\n>d\nCATGNA\n",
+	"odd.fa":   ">a\nAC?T*N\n>b\nA-?T*a\n>c\nacgt-?\n",
 	"aa.fa":    ">p1\nMAKWL-\n>p2\nMAKWLL\n>p3\nMGKWIL\n",
 	// the ORF ATGCTTTGGTAA translates to MLW*: L is a protein-only letter, so the pairwise aligner reads it as a protein
 	"unal.fa": ">u1\nCCATGCTTTGGTAAGG\n>u2\nATGCTTTGGTAA\n>u3\nGATGCTATGGTAAC\n>u4\nCCTTACCAAAGCATGG\n",
@@ -715,7 +716,7 @@ func init() {
 		ID:    "C11",
 		Level: "model_checking",
 		Rule: "subprocess-mode exploration of the goalign binary instrumented from the current tree: for each of the listed command scenarios (every documented command family, 1-3 flag sets each, on small nucleotide / protein / multi-Phylip / malformed-second-alignment inputs) x seeds {1,7} (randomised commands) x --threads {1,2,3,16} (threaded commands): the default execution, then EVERY execution within 2 (quick) / 3 (thorough) deviations from it (with 3 and 16 threads: 1 / 2) — a deviation is one scheduling decision other than the default (keep the running goroutine, else the lowest runnable id) at a channel/mutex/WaitGroup/spawn operation, one non-sorted iteration order at a ranged map, or one clock step at time.Now — must give exactly the bytes (stdout, exit status, every file written) of the default one-thread execution, end normally, and show no data race (vector clocks). " +
-			"Reformat chains: ALL format sequences of <=3 conversions among fasta/phylip/nexus/clustal that return to the starting format, on 4 inputs, must return the starting bytes; build distboot == build seqboot + compute distance for 4 models x 2 seeds. Each scenario also runs on the uninstrumented binary and on the instrumented binary in pass-through mode (must agree). states/transitions = nodes/edges of the choice trees; distinct_nontrivial = distinct (scenario, seed, threads, choice list) executions compared.",
+			"Reformat chains: ALL format sequences of <=3 conversions among fasta/phylip/nexus/clustal that return to the starting format, on 5 inputs (one with '?', '*' and lower case), must return the starting bytes; build distboot == build seqboot + compute distance for 4 models x 2 seeds. Each scenario also runs on the uninstrumented binary and on the instrumented binary in pass-through mode (must agree). states/transitions = nodes/edges of the choice trees; distinct_nontrivial = distinct (scenario, seed, threads, choice list) executions compared.",
 		Assumptions: []string{
 			"scheduling points only at synchronisation operations (channel, mutex, WaitGroup, go); data races are reported separately by vector clocks",
 			"stderr is not compared (log lines); dependencies (cobra, gzip, xz, tar) are not instrumented: they spawn no goroutines and range over no maps on these paths",
@@ -760,7 +761,7 @@ func init() {
 				}
 			}
 			// reformat chains
-			for _, in := range []string{"nt.fa", "aa.fa", "tie.fa", "nt2.fa"} {
+			for _, in := range []string{"nt.fa", "aa.fa", "tie.fa", "nt2.fa", "odd.fa"} {
 				for _, start := range c11Formats {
 					in, start := in, start
 					ts = append(ts, mc.Task{Name: fmt.Sprintf("chain#%s/%s", in, start), Run: func(c *mc.Ctx) {
